@@ -335,10 +335,25 @@ func checkProgram(env *jbuild.Env, pool *simpool.Pool, p *seqgen.Program, dir st
 			return string(line[col:e])
 		}
 		jsBad := 0
+		isIDByte := func(b byte) bool {
+			return b == '$' || b == '_' || (b >= '0' && b <= '9') || (b >= 'a' && b <= 'z') || (b >= 'A' && b <= 'Z')
+		}
 		for _, m := range maps {
 			if !m.hasSrc || !strings.HasSuffix(sm.Sources[m.src], ".js") || m.genLine >= len(jsLines) {
 				continue
 			}
+			// A mapping of a JavaScript chunk (prelude, .inc.js) is made by esbuild for the start of a token and then
+			// offset by where the chunk was written: one that points into the middle of an identifier, keyword or
+			// number was offset wrongly.
+			if gl := jsLines[m.genLine]; m.genCol > 0 && m.genCol < len(gl) && isIDByte(gl[m.genCol-1]) && isIDByte(gl[m.genCol]) {
+				add("js_chunk_mappings_inside_a_token", 1)
+				jsBad++
+				if jsBad == 1 {
+					fail(violation{class: "js-chunk-mapping-misplaced", msg: fmt.Sprintf("%s build: the mapping for %s:%d:%d points at generated %d:%d, into the middle of a token: %q", variant.name, sm.Sources[m.src], m.origLine+1, m.origCol, m.genLine+1, m.genCol, clipLine(jsLines[m.genLine], m.genCol-6)), prog: p, variant: variant.name})
+				}
+				continue
+			}
+			add("js_chunk_mappings_at_token_boundaries", 1)
 			path, ok := resolveSource(sm.Sources[m.src], env.Repo)
 			if !ok {
 				continue
